@@ -263,8 +263,8 @@ func runConc9(e *exec) {
 					return 0, w.S.Release(world.HW(clientMAC(o.M)))
 				case aCheckTables:
 					apiUserCheckTables(e, "C09.tables", "quiescent point (concurrent run)") // C09: "the table invariants of C05 hold at every quiescent point"
-				// (Session.DHCPv4Update is not offered here: the statement's API list does not include it;
-				// it is the DHCP handler's call, made from the packet loop)
+					// (Session.DHCPv4Update is not offered here: the statement's API list does not include it;
+					// it is the DHCP handler's call, made from the packet loop)
 				}
 				return 0, nil
 			})
